@@ -45,7 +45,7 @@ logger = Log(__name__)
 logger.debug("loading module")
 
 from bisect import bisect_left
-from amoco.cas.expressions import exp
+from amoco.cas.expressions import exp, composer
 from amoco.ui.views import mmapView
 
 # ------------------------------------------------------------------------------
@@ -121,10 +121,12 @@ class MemoryMap(object):
     def __str__(self):
         return "\n".join([str(z) for z in self._zones.values()])
 
-    def read(self, address, l):
+    def read(self, address, l, endian=None):
+        # endian is the byte order of the read (if known): an expression that
+        # was stored in the other byte order comes out byte-swapped
         r, o = self.reference(address)
         if r in self._zones:
-            return self._zones[r].read(o, l)
+            return self._zones[r].read(o, l, endian)
         else:
             raise MemoryError(address)
 
@@ -254,7 +256,7 @@ class MemoryZone(object):
         else:
             return i - 1
 
-    def read(self, vaddr, l):
+    def read(self, vaddr, l, endian=None):
         void = exp
         res = []
         i = self.locate(vaddr)
@@ -273,7 +275,7 @@ class MemoryZone(object):
         ll = l
         while ll > 0:
             try:
-                data, ll = self._map[i].read(vaddr, ll)
+                data, ll = self._map[i].read(vaddr, ll, endian)
             except IndexError:
                 res.append(void(ll * 8))
                 ll = 0
@@ -456,9 +458,9 @@ class mo(object):
     def setlen(self, l):
         self.data.setlen(l)
 
-    def read(self, vaddr, l):
+    def read(self, vaddr, l, endian=None):
         if vaddr in self:
-            return self.data.getpart(vaddr - self.vaddr, l)
+            return self.data.getpart(vaddr - self.vaddr, l, endian)
         else:
             return (None, l)
 
@@ -549,7 +551,15 @@ class datadiv(object):
         else:
             self.val = self.val.bytes(sto=l, endian=self.endian)
 
-    def getpart(self, o, l):
+    def _ordered(self, res, endian):
+        # res is made of bytes of the expression self.val, stored in byte order
+        # self.endian: read in the other byte order, its bytes come out reversed
+        if endian is None or endian == self.endian or res.length < 2:
+            return res
+        n = res.length
+        return composer([res[8 * k : 8 * k + 8] for k in range(n - 1, -1, -1)])
+
+    def getpart(self, o, l, endian=None):
         try:
             assert o >= 0 and l >= 0
             if not self._is_raw:
@@ -560,14 +570,16 @@ class datadiv(object):
             raise ValueError
         lv = len(self)
         if o == 0 and l == lv:
-            return (self.val, 0)
+            if self._is_raw:
+                return (self.val, 0)
+            return (self._ordered(self.val, endian), 0)
         if self._is_raw:
             res = self.val[o : o + l]
             return (res, l - len(res))
         if o >= lv:
             return (None, l)
         res = self.val.bytes(o, o + l, self.endian)
-        return (res, l - res.length)
+        return (self._ordered(res, endian), l - res.length)
 
     def setpart(self, o, data, endian):
         assert 0 <= o <= len(self)
